@@ -2,14 +2,22 @@
 odl/solvers/functional/functional.py  ->  OdlModel/Gen/AlgebraDispatch.lean
 
 What is extracted (see lean/OdlModel/Model/OpDispatch.lean for the target language):
-  * the if/elif/else trees of Operator.__add__/__mul__/__rmul__, OperatorRightScalarMult.__mul__,
-    Functional.__add__/__mul__/__rmul__ as `Act` terms (guard atoms in program order, leaves =
-    constructed class + argument pattern / super / `other * self` / NotImplemented);
+  * Operator.__add__/__mul__/__rmul__, OperatorRightScalarMult.__mul__, Functional.__add__/
+    __mul__/__rmul__ as `Act` terms.  The bodies are not shape-matched: dispatch_interp.py
+    EXECUTES each body once per abstract operand class of the model (66 "worlds": other is an
+    operator / Functional / Real or non-Real, zero or non-zero scalar / element in or out of
+    range and domain; self linear, range / domain a field) over a closed vocabulary of
+    statements, tests and constructor calls, and the decision table is rendered as a canonical
+    term (fixed atom order, equal branches merged).  Guard clauses vs elif chains, test order,
+    named booleans, conditional expressions picking the class and extracted helpers give the
+    same output; a different result for any operand class gives a different table;
   * the one-line overloads (__radd__, __sub__, __rsub__, __neg__, __truediv__, __matmul__,
     Functional.__sub__, the alias Functional.__radd__ = __add__, the __pow__ loop) as `Deleg`s;
   * which classes define arithmetic overloads at all (the MRO chain the interpreter hard-codes);
   * the two __array_priority__ values, the scalar-merging shortcut of the two ScalarMult
-    constructors, and for each of the 19 expression classes how its constructor sets is_linear
+    constructors (symbolic execution of every rebinding of scalar/operator, module-level helper
+    calls inlined), the __pow__ loop (interpreted for n = -1..5 in its two recognisable forms:
+    countdown while, `for _ in range(n - 1)`), and for each of the 19 expression classes how its constructor sets is_linear
     (the LAST base initialiser in source order wins, as in Python).
 The grammar is deliberately tiny; anything outside it raises ExtractionError, which the check
 treats as a broken obligation (then searches the real code), never as a pass.
@@ -18,10 +26,10 @@ import ast
 import os
 
 from vf import core
+from extract import dispatch_interp as di
 
 
-class ExtractionError(Exception):
-    pass
+ExtractionError = di.ExtractionError
 
 
 def _u(node):
@@ -36,23 +44,6 @@ def _strip(body):
     return [s for s in body if not isinstance(s, (ast.Import, ast.ImportFrom))]
 
 
-GUARDS = {
-    'isinstance(other, Operator)': 'otherIsOperator',
-    'isinstance(other, Functional)': 'otherIsFunctional',
-    'isinstance(other, Number)': 'otherIsNumber',
-    'other in self.range': 'otherInRange',
-    'other in self.range.field': 'otherInRangeField',
-    'other in self.domain': 'otherInDomain',
-    'other in self.domain.field': 'otherInDomainField',
-    'isinstance(other, LinearSpaceElement) and other in self.domain': 'otherElemInDomain',
-    'isinstance(other, LinearSpaceElement) and other.space.field == self.range':
-        'otherElemFieldIsRange',
-    'other == 0': 'otherEqZero',
-    'self.is_linear': 'selfIsLinear',
-    'isinstance(other, Real)': 'otherIsReal',
-    'other.domain.field == self.range': 'otherDomainFieldIsRange',
-}
-
 CLASSES = ['OperatorSum', 'OperatorVectorSum', 'OperatorComp', 'OperatorPointwiseProduct',
            'OperatorLeftScalarMult', 'OperatorRightScalarMult', 'OperatorLeftVectorMult',
            'OperatorRightVectorMult', 'FunctionalLeftVectorMult', 'FunctionalSum',
@@ -65,73 +56,11 @@ ARGS = {
     ('other', 'self'): 'otherSelf',
     ('self', 'other.copy()'): 'selfOtherCopy',
     ('self', 'constant_vector'): 'selfOtherTimesOne',
+    ('self', 'other * self.range.one()'): 'selfOtherTimesOne',
     ('self.operator', 'self.scalar * other', 'self.__tmp'): 'opScalTimesOther',
     ('self.domain', 'self(self.domain.zero())'): 'domainSelfAtZero',
     ('self.domain',): 'domain',
 }
-
-
-def _guard(node):
-    s = _u(node)
-    if s in GUARDS:
-        return 'Guard.' + GUARDS[s]
-    if isinstance(node, ast.BoolOp) and isinstance(node.op, ast.And):
-        parts = [_guard(v) for v in node.values]
-        out = parts[-1]
-        for p in reversed(parts[:-1]):
-            out = '(Guard.and {} {})'.format(p, out)
-        return out
-    raise ExtractionError('unknown guard `{}`'.format(s))
-
-
-def _ret(node, cls, meth, env):
-    """a return statement -> Act"""
-    v = node.value
-    s = _u(v)
-    if s == 'NotImplemented':
-        return 'Act.notImplemented'
-    if s == 'other * self':
-        return 'Act.otherTimesSelf'
-    if s == 'super({}, self).{}(other)'.format(cls, meth):
-        return 'Act.super'
-    if isinstance(v, ast.Call) and isinstance(v.func, ast.Name) and v.func.id in CLASSES:
-        if v.keywords:
-            raise ExtractionError('keyword arguments in `{}`'.format(s))
-        args = tuple(_u(a) for a in v.args)
-        if args not in ARGS:
-            raise ExtractionError('unknown argument pattern in `{}`'.format(s))
-        if 'constant_vector' in args and env.get('constant_vector') != 'other * self.range.one()':
-            raise ExtractionError('constant_vector is not `other * self.range.one()`')
-        return '(Act.mk Cls.{} Args.{})'.format(v.func.id, ARGS[args])
-    raise ExtractionError('unknown return `{}` in {}.{}'.format(s, cls, meth))
-
-
-def _block(stmts, cls, meth):
-    """a statement list in which every path returns -> Act"""
-    stmts = _strip(stmts)
-    env = {}
-    i = 0
-    while i < len(stmts) and isinstance(stmts[i], ast.Assign):
-        a = stmts[i]
-        if len(a.targets) != 1 or not isinstance(a.targets[0], ast.Name):
-            raise ExtractionError('unknown assignment `{}`'.format(_u(a)))
-        env[a.targets[0].id] = _u(a.value)
-        i += 1
-    rest = stmts[i:]
-    if len(rest) != 1:
-        raise ExtractionError('expected one if/return in {}.{}, got {}'.format(
-            cls, meth, [type(s).__name__ for s in rest]))
-    st = rest[0]
-    if isinstance(st, ast.Return):
-        return _ret(st, cls, meth, env)
-    if isinstance(st, ast.If):
-        if env:
-            raise ExtractionError('assignment before a branch in {}.{}'.format(cls, meth))
-        if not st.orelse:
-            raise ExtractionError('if without else in {}.{}'.format(cls, meth))
-        return '(Act.ite {} {} {})'.format(_guard(st.test), _block(st.body, cls, meth),
-                                           _block(st.orelse, cls, meth))
-    raise ExtractionError('unknown statement `{}` in {}.{}'.format(_u(st), cls, meth))
 
 
 DELEGS = {
@@ -144,12 +73,6 @@ DELEGS = {
     'return self.__mul__(other)': 'selfMulOther',
     'return self.__rmul__(other)': 'selfRMulOther',
 }
-
-POW_BODY = ('if isinstance(n, Integral) and n > 0:\n    op = self\n    while n > 1:\n'
-            '        op = OperatorComp(self, op)\n        n -= 1\n    return op\nelse:\n'
-            '    return NotImplemented')
-
-MERGE = ['scalar = scalar * operator.scalar', 'operator = operator.operator']
 
 ARITH = ['__add__', '__radd__', '__sub__', '__rsub__', '__mul__', '__rmul__', '__matmul__',
          '__rmatmul__', '__pow__', '__truediv__', '__div__', '__neg__', '__pos__',
@@ -287,23 +210,6 @@ def _stores(fn, names):
                     if isinstance(n, ast.Name) and n.id in names:
                         out.append(node)
     return out
-
-
-def _merge_rule(cls):
-    """The ONLY rebinding of `scalar`/`operator` in `cls.__init__` must be the top-level block
-    `if isinstance(operator, cls): scalar = scalar * operator.scalar; operator = operator.operator`
-    (-> ownClassProduct), or there is none (-> none)."""
-    init = _methods(cls)['__init__']
-    stores = _stores(init, ('scalar', 'operator'))
-    blocks = [n for n in init.body if isinstance(n, ast.If) and
-              _u(n.test) == 'isinstance(operator, {})'.format(cls.name)]
-    if not stores and not blocks:
-        return 'none'
-    if len(blocks) == 1 and not blocks[0].orelse and [_u(x) for x in blocks[0].body] == MERGE \
-            and sorted(map(_u, stores)) == sorted(MERGE):
-        return 'ownClassProduct'
-    raise ExtractionError('{}.__init__ rebinds scalar/operator in a way the grammar does not '
-                          'know: {}'.format(cls.name, sorted(set(map(_u, stores)))))
 
 
 def _functional_scalar_ctor_ok(fnc):
@@ -466,14 +372,19 @@ def extract(repo=None):
                 raise ExtractionError('bases of {} are {}'.format(c, bases))
     O, R, F = _methods(opc['Operator']), _methods(opc['OperatorRightScalarMult']), \
         _methods(fnc['Functional'])
+    di.CLASSES, di.ARGS = CLASSES, ARGS
+
+    def act(fn, cls):
+        # abstract interpretation per operand class -> decision table -> canonical Act term
+        return di.canonical(di.table(fn, cls))
     acts = {
-        'operatorAdd': _block(O['__add__'].body, 'Operator', '__add__'),
-        'operatorMul': _block(O['__mul__'].body, 'Operator', '__mul__'),
-        'operatorRMul': _block(O['__rmul__'].body, 'Operator', '__rmul__'),
-        'rscalMul': _block(R['__mul__'].body, 'OperatorRightScalarMult', '__mul__'),
-        'functionalAdd': _block(F['__add__'].body, 'Functional', '__add__'),
-        'functionalMul': _block(F['__mul__'].body, 'Functional', '__mul__'),
-        'functionalRMul': _block(F['__rmul__'].body, 'Functional', '__rmul__'),
+        'operatorAdd': act(O['__add__'], 'Operator'),
+        'operatorMul': act(O['__mul__'], 'Operator'),
+        'operatorRMul': act(O['__rmul__'], 'Operator'),
+        'rscalMul': act(R['__mul__'], 'OperatorRightScalarMult'),
+        'functionalAdd': act(F['__add__'], 'Functional'),
+        'functionalMul': act(F['__mul__'], 'Functional'),
+        'functionalRMul': act(F['__rmul__'], 'Functional'),
     }
     for k, fn in [('O', O), ('R', R), ('F', F)]:
         for m in fn.values():
@@ -491,12 +402,13 @@ def extract(repo=None):
     if _aliases(opc['Operator']).get('__div__') != '__truediv__':
         raise ExtractionError('__div__ alias changed')
     radd_alias = _aliases(fnc['Functional']).get('__radd__') == '__add__'
-    pow_ok = '\n'.join(_u(s) for s in _strip(O['__pow__'].body)) == POW_BODY
+    pow_ok = di.pow_is_comp_loop(O['__pow__'])
     calls, pins = _call_tables(opc, fnc, dfc)
     prio = float(_class_const(opc['Operator'], '__array_priority__')) > \
         float(_class_const(spc['LinearSpaceElement'], '__array_priority__'))
-    merge_l = _merge_rule(opc['OperatorLeftScalarMult'])
-    merge_r = _merge_rule(opc['OperatorRightScalarMult'])
+    mod_funcs = {n.name: n for n in op_tree.body if isinstance(n, ast.FunctionDef)}
+    merge_l = di.merge_rule(opc['OperatorLeftScalarMult'], mod_funcs, _stores)
+    merge_r = di.merge_rule(opc['OperatorRightScalarMult'], mod_funcs, _stores)
     flags = _flags(opc, fnc, dfc)
 
     def b(x):
